@@ -15,9 +15,7 @@ import (
 	"fmt"
 	"os"
 	"runtime"
-	"runtime/pprof"
 	"sort"
-	"strconv"
 	"strings"
 	"sync"
 	"sync/atomic"
@@ -118,18 +116,15 @@ func main() {
 		return
 	}
 	r := ev.Start("C07", "fault_enumeration")
-	if pf := os.Getenv("C07_CPUPROFILE"); pf != "" {
-		f, _ := os.Create(pf)
-		pprof.StartCPUProfile(f)
-		defer pprof.StopCPUProfile()
-		go func() { time.Sleep(20 * time.Second); pprof.StopCPUProfile(); f.Close(); os.Exit(0) }()
-	}
 	// The corruption streams are encoded first, in a fixed order, before any other
 	// use of gob in this process: gob assigns type ids in order of first use, so
 	// this makes their bytes the same in every run and in both tiers.
 	streams := buildStreams(r)
 	if *flagList {
 		for _, s := range streams {
+			if s.e == nil {
+				continue
+			}
 			fmt.Println(s.name(), "bounds", s.e.bounds, "msgs", len(s.msgs))
 			fmt.Printf("   %x\n", s.e.data)
 		}
@@ -153,16 +148,11 @@ func main() {
 	if *flagOnly != "corruption" {
 		units, frule := fidelityUnits(r.Thorough())
 		rule += frule
-		if mu := os.Getenv("C07_MAXUNITS"); mu != "" {
-			n, _ := strconv.Atoi(mu)
-			units = units[:n]
-		}
 		batchSeqs := seqs([]int{0, 1, 2, 3}, 0, 3)
 		dstSeqs := seqs([]int{1, 2, 3, 4}, 1, 3)
 		var st fidStats
 		var skipped int64
 		var encodes int64
-		var sampled int32
 		ev.Parallel(len(units), workers, func(i int) {
 			u := units[i]
 			if r.OverBudget(budget) {
@@ -190,7 +180,7 @@ func main() {
 							e = nil
 						}
 						enc[wk] = e
-						if e != nil && len(bs) == 2 && bs[0] == 3 && bs[1] == 2 && atomic.AddInt32(&sampled, 1) <= 2 {
+						if e != nil && len(bs) == 2 && bs[0] == 3 && bs[1] == 2 && (i == 16 || i == len(allKinds())+1) && cfg == u.cfgs[0] {
 							r.Sample(map[string]interface{}{"part": "fidelity", "columns": u.c.String(), "batch_lengths": bs, "configuration": cfg.String(),
 								"stream_bytes": len(e.data), "batch_boundaries": e.bounds, "rows": e.truth,
 								"read_with": "each of the 84 cyclic destination-length patterns"})
@@ -323,6 +313,10 @@ func main() {
 		var sl []map[string]interface{}
 		bytesTotal := 0
 		for _, s := range streams {
+			if s.e == nil {
+				r.NotExhaustive(fmt.Sprintf("corruption stream %d (%s %v) could not be written", s.idx, s.spec.c, s.spec.lens))
+				continue
+			}
 			sl = append(sl, map[string]interface{}{"columns": s.spec.c.String(), "batch_lengths": s.spec.lens, "bytes": len(s.e.data), "batch_boundaries": s.e.bounds})
 			bytesTotal += len(s.e.data)
 		}
